@@ -136,7 +136,33 @@ def run_case(case, tier):
     I = new_interp(prog)
     res = {"paths": 0, "queries": 0, "solver_s": 0.0, "status": "holds", "witness": None, "funcs": [], "notes": []}
 
+    def entry_raw(I):
+        """the raw-identifier spelling `r#name` is transparent: get_ident(r#name) == (name, rename_all(name))"""
+        from vlib.mirsym.models_syn import SynIdent
+        ident = sym_ident(I, word)
+        L = I.prog.layout
+        idn = L.structs["Id"]
+        ts_kind, ts, sd_kind, sd = "ok", None, "ok", None
+        try:
+            r = I.call_static("parser::rename_all_to_case", [RString(list(ident)), Ref([SOME(S(rule))], 0)])
+            sd = list(r.chars)
+        except Panic as p:
+            sd_kind, sd = "panic", p.msg
+        try:
+            raw = SynIdent(RString([ord("r"), ord("#")] + list(ident)))
+            r = I.call_static("parser::get_ident", [SOME(Ref([raw], 0)), SliceRef([], 0, 0), Ref([SOME(S(rule))], 0)])
+            ts = list(r.fields[idn.index("renamed")].chars)
+            orig = list(r.fields[idn.index("original")].chars)
+            e = seq_eq(I, orig, list(ident))
+            if e is False or (e is not True and I.sat_model(z3.Not(e)) is not None):
+                ts = [ord(c) for c in "<original keeps r#>"] + ts
+        except Panic as p:
+            ts_kind, ts = "panic", p.msg
+        return ident, ts_kind, ts, sd_kind, sd
+
     def entry(I):
+        if pos.startswith("raw_"):
+            return entry_raw(I)
         ident = sym_ident(I, word)
         ts_kind, ts = "ok", None
         try:
@@ -162,11 +188,18 @@ def run_case(case, tier):
             continue
         ident, tk, ts, sk, sd = out
         viol = None
-        if sk == "panic":
+        if sk == "panic" and pos.startswith("raw_"):
+            if tk != "panic":
+                viol = z3.BoolVal(True)
+            else:
+                continue
+        elif sk == "panic":
             # serde_derive itself panics on this identifier (the derive fails to compile): not a program in the quantifier
             res["notes"].append("identifiers on which serde_derive's own case conversion panics are outside the claim") if not res["notes"] else None
             continue
-        if tk != sk:
+        if viol is not None:
+            pass
+        elif tk != sk:
             viol = z3.BoolVal(True)
         elif tk == "ok":
             eq = seq_eq(I, ts, sd)
@@ -189,6 +222,9 @@ def run_case(case, tier):
 
 def native(rep, rule, pos, ident):
     """real typeshare (through parser::parse on a one-member item) vs real serde case.rs"""
+    if pos.startswith("raw_"):
+        return native_raw(rep, rule, pos, ident)
+
     def src(name):
         if pos == "field":
             return '#[typeshare]\n#[serde(rename_all = "%s")]\npub struct S { pub %s: u32 }\n' % (rule, name)
@@ -220,6 +256,42 @@ def native(rep, rule, pos, ident):
     return ts, sd, None
 
 
+def native_raw(rep, rule, pos, ident):
+    """real typeshare on `r#name` against real typeshare on `name` (serde's case.rs on `name` when `name` is a keyword)"""
+    base = pos[4:]
+    def one(name):
+        if base == "field":
+            sc = '#[typeshare]\n#[serde(rename_all = "%s")]\npub struct S { pub %s: u32 }\n' % (rule, name)
+        else:
+            sc = '#[typeshare]\n#[serde(rename_all = "%s")]\npub enum E { %s }\n' % (rule, name)
+        r = rep.ask({"op": "parse", "source": sc})
+        if "panic" in r or "crash" in r:
+            return "panic"
+        if "ok" in r and r["ok"]:
+            d = r["ok"]
+            try:
+                if base == "field":
+                    return d["structs"][0]["fields"][0]["id"]["renamed"]
+                e = d["enums"][0]
+                sh = e["0"] if e["$"] == "RustEnum::Unit" else e["shared"]
+                v = sh["variants"][0]
+                return (v["0"] if v["$"].endswith("Unit") else v["shared"])["id"]["renamed"]
+            except (KeyError, IndexError):
+                return None
+        return None
+    ts = one("r#" + ident)
+    ref = one(ident)
+    if ts is None:
+        return None, None, "raw source did not parse"
+    if ref is None:
+        if rule == "Title Case":
+            ref = ident
+        else:
+            q = rep.ask({"op": "serde_case", "rule": rule, "pos": base, "s": ident})
+            ref = "panic" if ("panic" in q or "crash" in q) else q.get("ok")
+    return ts, ref, None
+
+
 def selftest(rep):
     """push the repo's own test vectors through the interpreter and the real build: must agree"""
     prog = load_program(("core",))
@@ -247,11 +319,14 @@ def run(rep_, tier, only=None):
     native_rep = Replayer()
     rep_.validated += selftest(native_rep)
     cases = [(r, p, w) for r in RULES for p in ("field", "variant") for w in words(tier)]
+    raw_words = [w for w in words(tier) if len(w) <= (3 if tier == "quick" else 4) and all(c in ASCII for c in w) and w[0] in "lu"]
+    cases += [(r, p, w) for r in RULES for p in ("raw_field", "raw_variant") for w in raw_words]
     if only:
         cases = [c for c in cases if c[0] in only or c[2] in only]
     rep_.bounds = {"identifier_length": "ASCII class words up to %d, words with one non-ASCII representative up to %d" % ((4, 3) if tier == "quick" else (6, 4)),
                    "alphabet": "l=[a-z] u=[A-Z] d=[0-9] _ and representatives é É ß ǅ 中 (letters/digits symbolic within their class)",
-                   "rules": RULES, "positions": ["field", "variant"]}
+                   "rules": RULES, "positions": ["field", "variant"],
+                   "raw identifiers": "parser::get_ident on `r#` + every ASCII class word up to length %d: same result as the plain identifier, original without the prefix" % (3 if tier == "quick" else 4)}
     rep_.outside = ["identifiers longer than the bound", "two or more non-ASCII letters in one identifier", "non-ASCII letters other than the five representatives"]
     rep_.assumptions = ["oracle: serde_derive 1.0.214 internals/case.rs restated in Python over symbolic chars; counterexamples are re-decided by the real file (tools/vreplay/src/serde_case.rs, verbatim copy)",
                         "unknown rule ('Title Case'): serde_derive rejects it at compile time; the property's clause 'leaves names unchanged' is the oracle"]
@@ -291,7 +366,7 @@ def run(rep_, tier, only=None):
             rep_.inconc("engine mismatch: %s witness %r does not reproduce natively (typeshare=%r serde=%r)" % (case, w, ts, sd))
             continue
         rep_.violation({"position": pos, "rule": rule, "class": word},
-                       "rename_all=%s on %s `%s`: typeshare gives %r, serde_derive gives %r" % (rule, pos, w["ident"], ts, sd),
+                       ("rename_all=%s on %s `r#%s`: typeshare gives %r, the plain identifier gives %r" if pos.startswith("raw_") else "rename_all=%s on %s `%s`: typeshare gives %r, serde_derive gives %r") % (rule, pos, w["ident"], ts, sd),
                        {"rule": rule, "position": pos, "ident": w["ident"], "class": word, "typeshare": ts, "serde": sd})
         rep_.discharged += 1   # decided (as a violation)
     native_rep.close()
